@@ -70,14 +70,16 @@ theorem any_eq_true_iff {β : Type} (p : β → Bool) (l : List β) :
     (!l.any p) = false ↔ ∃ x ∈ l, p x = true := by
   simp
 
-theorem faValidateReserved_eq_ok (R : Reserved σ α) (states : List σ) (syms : List α) :
-    faValidateReserved R states syms = .ok () ↔
-      (∀ q ∈ states, R.isNone q = false) ∧ (∀ a ∈ syms, R.isEmptyStr a = false) := by
+theorem faValidateReserved_eq_ok (R : Reserved σ α) (states keys : List σ) (syms : List α) :
+    faValidateReserved R states keys syms = .ok () ↔
+      (∀ q ∈ states, R.isNone q = false) ∧ (∀ q ∈ keys, R.isNone q = false) ∧
+      (∀ a ∈ syms, R.isEmptyStr a = false) := by
   unfold faValidateReserved
-  rw [Res.andThen_eq_ok, guardE_eq_ok, guardE_eq_ok, any_eq_false_iff, any_eq_false_iff]
+  rw [Res.andThen_eq_ok, guardE_eq_ok, guardE_eq_ok, any_eq_false_iff]
+  simp only [Bool.not_eq_true', Bool.or_eq_false_iff, List.any_eq_false, Bool.not_eq_true, and_assoc]
 
-@[simp] theorem faValidateReserved_absent (states : List σ) (syms : List α) :
-    faValidateReserved Reserved.absent states syms = .ok () := by
+@[simp] theorem faValidateReserved_absent (states keys : List σ) (syms : List α) :
+    faValidateReserved Reserved.absent states keys syms = .ok () := by
   rw [faValidateReserved_eq_ok]; simp [Reserved.absent]
 
 /-- The two rules of `_validate_reserved_names`. -/
@@ -92,46 +94,60 @@ def FaReservedRule.stage : FaReservedRule → Nat
   | .reservedStateName => 0
   | .reservedInputSymbol => 1
 
-/-- Rule system of `_validate_reserved_names` on any definition type with a state set and an
-input alphabet. -/
-def faReservedRules {δ : Type} (R : Reserved σ α) (st : δ → List σ) (sy : δ → List α) :
+/-- Rule system of `_validate_reserved_names` on any definition type with a state set, a
+transition table (`ks` = its row keys) and an input alphabet.  "No state is named `None`" covers
+the state set and the keys of the table. -/
+def faReservedRules {δ : Type} (R : Reserved σ α) (st ks : δ → List σ) (sy : δ → List α) :
     RuleSys δ FaReservedRule where
   kind := FaReservedRule.kind
   stage := FaReservedRule.stage
   Violates d
-    | .reservedStateName => ∃ q ∈ st d, R.isNone q = true
+    | .reservedStateName => (∃ q ∈ st d, R.isNone q = true) ∨ (∃ q ∈ ks d, R.isNone q = true)
     | .reservedInputSymbol => ∃ a ∈ sy d, R.isEmptyStr a = true
 
-theorem faReservedRules_correct {δ : Type} (R : Reserved σ α) (st : δ → List σ) (sy : δ → List α) :
-    (faReservedRules R st sy).Correct (fun d => faValidateReserved R (st d) (sy d)) where
+theorem not_exists_isTrue {β : Type} (p : β → Bool) (l : List β) :
+    (¬ ∃ x ∈ l, p x = true) ↔ ∀ x ∈ l, p x = false := by
+  constructor
+  · intro h x hx
+    cases hp : p x with
+    | false => rfl
+    | true => exact absurd ⟨x, hx, hp⟩ h
+  · rintro h ⟨x, hx, hp⟩; rw [h x hx] at hp; cases hp
+
+theorem faReservedRules_correct {δ : Type} (R : Reserved σ α) (st ks : δ → List σ) (sy : δ → List α) :
+    (faReservedRules R st ks sy).Correct (fun d => faValidateReserved R (st d) (ks d) (sy d)) where
   ok_iff d := by
     rw [faValidateReserved_eq_ok]
     constructor
-    · rintro ⟨h1, h2⟩ r
+    · rintro ⟨h1, h2, h3⟩ r
       cases r
-      · rintro ⟨q, hq, hn⟩; rw [h1 q hq] at hn; cases hn
-      · rintro ⟨a, ha, hn⟩; rw [h2 a ha] at hn; cases hn
+      · rintro (hv | hv)
+        · exact (not_exists_isTrue _ _).mpr h1 hv
+        · exact (not_exists_isTrue _ _).mpr h2 hv
+      · exact (not_exists_isTrue _ _).mpr h3
     · intro h
-      refine ⟨fun q hq => ?_, fun a ha => ?_⟩
-      · cases hn : R.isNone q with
-        | false => rfl
-        | true => exact absurd ⟨q, hq, hn⟩ (h .reservedStateName)
-      · cases hn : R.isEmptyStr a with
-        | false => rfl
-        | true => exact absurd ⟨a, ha, hn⟩ (h .reservedInputSymbol)
+      have h0 := h .reservedStateName
+      exact ⟨(not_exists_isTrue _ _).mp (fun hv => h0 (Or.inl hv)),
+        (not_exists_isTrue _ _).mp (fun hv => h0 (Or.inr hv)),
+        (not_exists_isTrue _ _).mp (h .reservedInputSymbol)⟩
   error_kind d e h := by
     unfold faValidateReserved at h
     rcases Res.andThen_eq_error.mp h with h0 | ⟨ok0, h1⟩
     · obtain ⟨hc, rfl⟩ := guardE_eq_error.mp h0
-      refine ⟨.reservedStateName, (any_eq_true_iff _ _).mp hc, rfl, ?_⟩
+      have hv : (faReservedRules R st ks sy).Violates d .reservedStateName := by
+        simp only [Bool.not_eq_false', Bool.or_eq_true, List.any_eq_true] at hc
+        exact hc
+      refine ⟨.reservedStateName, hv, rfl, ?_⟩
       intro r' hr'; cases r' <;> simp [faReservedRules, FaReservedRule.stage] at hr'
     · obtain ⟨hc, rfl⟩ := guardE_eq_error.mp h1
       refine ⟨.reservedInputSymbol, (any_eq_true_iff _ _).mp hc, rfl, ?_⟩
       intro r' hr'
       cases r' <;> simp [faReservedRules, FaReservedRule.stage] at hr'
-      rintro ⟨q, hq, hn⟩
-      have := (any_eq_false_iff _ _).mp (guardE_eq_ok.mp ok0) q hq
-      rw [this] at hn; cases hn
+      have hok := guardE_eq_ok.mp ok0
+      simp only [Bool.not_eq_true', Bool.or_eq_false_iff, List.any_eq_false, Bool.not_eq_true] at hok
+      rintro (⟨q, hq, hn⟩ | ⟨q, hq, hn⟩)
+      · rw [hok.1 q hq] at hn; cases hn
+      · rw [hok.2 q hq] at hn; cases hn
 
 /-! ## DFA: the complete rule system -/
 
@@ -142,30 +158,35 @@ open AV.DFA
 is named `None`, no input symbol is `""`, and `AV.DFA.WF`. -/
 structure WFDef (R : Reserved σ α) (d : DFA σ α) : Prop extends DFA.WF d where
   noNone : ∀ q ∈ d.states, R.isNone q = false
+  noNoneKey : ∀ q ∈ akeys d.trans, R.isNone q = false
   noEmptySym : ∀ a ∈ d.syms, R.isEmptyStr a = false
 
 theorem validateDef_eq_ok (R : Reserved σ α) (d : DFA σ α) : validateDef R d = .ok () ↔ WFDef R d := by
   unfold validateDef
   rw [Res.andThen_eq_ok, faValidateReserved_eq_ok, validate_eq_ok]
-  exact ⟨fun ⟨⟨a, b⟩, c⟩ => ⟨c, a, b⟩, fun h => ⟨⟨h.noNone, h.noEmptySym⟩, h.toWF⟩⟩
+  exact ⟨fun ⟨⟨a, k, b⟩, c⟩ => ⟨c, a, k, b⟩, fun h => ⟨⟨h.noNone, h.noNoneKey, h.noEmptySym⟩, h.toWF⟩⟩
 
 /-- With name types that cannot express `None` / `""` the reserved-name check is vacuous. -/
 @[simp] theorem validateDef_absent (d : DFA σ α) : validateDef Reserved.absent d = d.validate := by
   simp [validateDef, Res.andThen]
 
 theorem wfDef_absent (d : DFA σ α) : WFDef Reserved.absent d ↔ d.WF :=
-  ⟨fun h => h.toWF, fun h => ⟨h, fun _ _ => rfl, fun _ _ => rfl⟩⟩
+  ⟨fun h => h.toWF, fun h => ⟨h, fun _ _ => rfl, fun _ _ => rfl, fun _ _ => rfl⟩⟩
 
 /-- An edit that leaves the state set and the alphabet of a well-formed definition alone
 passes the reserved-name check. -/
 theorem WFDef.reservedOk {R : Reserved σ α} {d : DFA σ α} (wf : WFDef R d) :
-    faValidateReserved R d.states d.syms = .ok () :=
-  (faValidateReserved_eq_ok R d.states d.syms).mpr ⟨wf.noNone, wf.noEmptySym⟩
+    faValidateReserved R d.states (akeys d.trans) d.syms = .ok () :=
+  (faValidateReserved_eq_ok R d.states (akeys d.trans) d.syms).mpr ⟨wf.noNone, wf.noNoneKey, wf.noEmptySym⟩
 
-theorem validateDef_eq_validate (R : Reserved σ α) (d d' : DFA σ α) (wf : WFDef R d)
-    (hs : d'.states = d.states) (hy : d'.syms = d.syms) : validateDef R d' = d'.validate := by
+/-- An edit `d'` of a well-formed definition `d` that leaves the state set and the alphabet alone and
+adds no row key passes the reserved-name check. -/
+theorem validateDef_eq_validate (R : Reserved σ α) {d : DFA σ α} (wf : WFDef R d) (d' : DFA σ α)
+    (hs : d'.states = d.states) (hy : d'.syms = d.syms)
+    (hk : ∀ q ∈ akeys d'.trans, q ∈ akeys d.trans) : validateDef R d' = d'.validate := by
   unfold validateDef
-  rw [hs, hy, (faValidateReserved_eq_ok R d.states d.syms).mpr ⟨wf.noNone, wf.noEmptySym⟩]
+  rw [hs, hy, (faValidateReserved_eq_ok R d.states (akeys d'.trans) d.syms).mpr
+    ⟨wf.noNone, fun q hq => wf.noNoneKey q (hk q hq), wf.noEmptySym⟩]
   rfl
 
 /-- The documented rules of a DFA definition, in the order of the checks. -/
@@ -210,7 +231,7 @@ def defRules (R : Reserved σ α) : RuleSys (DFA σ α) DefRule where
   kind := DefRule.kind
   stage := DefRule.stage
   Violates d
-    | .reservedStateName => ∃ q ∈ d.states, R.isNone q = true
+    | .reservedStateName => (∃ q ∈ d.states, R.isNone q = true) ∨ (∃ q ∈ akeys d.trans, R.isNone q = true)
     | .reservedInputSymbol => ∃ a ∈ d.syms, R.isEmptyStr a = true
     | .missingRow => ∃ q ∈ d.states, q ∉ akeys d.trans
     | .missingSymbol => d.allowPartial = false ∧ ∃ kv ∈ d.trans, ∃ a ∈ d.syms, a ∉ akeys kv.2
@@ -223,7 +244,7 @@ theorem defRules_stage (R : Reserved σ α) : (defRules R).stage = DefRule.stage
 theorem defRules_kind (R : Reserved σ α) : (defRules R).kind = DefRule.kind := rfl
 
 theorem defRules_correct (R : Reserved σ α) : (defRules R).Correct (validateDef R) := by
-  refine RuleSys.Correct.seq (faReservedRules_correct R (fun d : DFA σ α => d.states) (fun d => d.syms))
+  refine RuleSys.Correct.seq (faReservedRules_correct R (fun d : DFA σ α => d.states) (fun d => akeys d.trans) (fun d => d.syms))
     rules_correct DefRule.ofReserved DefRule.ofCore 2 ?_ ?_ ?_ ?_ ?_ ?_ ?_ ?_
   · intro r
     cases r
@@ -256,27 +277,32 @@ open AV.NFA
 /-- Well-formedness of an NFA definition under the interpretation `R` of its names. -/
 structure WFDef (R : Reserved σ α) (n : NFA σ α) : Prop extends NFA.WF n where
   noNone : ∀ q ∈ n.states, R.isNone q = false
+  noNoneKey : ∀ q ∈ akeys n.trans, R.isNone q = false
   noEmptySym : ∀ a ∈ n.syms, R.isEmptyStr a = false
 
 theorem validateDef_eq_ok (R : Reserved σ α) (n : NFA σ α) : validateDef R n = .ok () ↔ WFDef R n := by
   unfold validateDef
   rw [Res.andThen_eq_ok, faValidateReserved_eq_ok, validate_eq_ok]
-  exact ⟨fun ⟨⟨a, b⟩, c⟩ => ⟨c, a, b⟩, fun h => ⟨⟨h.noNone, h.noEmptySym⟩, h.toWF⟩⟩
+  exact ⟨fun ⟨⟨a, k, b⟩, c⟩ => ⟨c, a, k, b⟩, fun h => ⟨⟨h.noNone, h.noNoneKey, h.noEmptySym⟩, h.toWF⟩⟩
 
 @[simp] theorem validateDef_absent (n : NFA σ α) : validateDef Reserved.absent n = n.validate := by
   simp [validateDef, Res.andThen]
 
 theorem wfDef_absent (n : NFA σ α) : WFDef Reserved.absent n ↔ n.WF :=
-  ⟨fun h => h.toWF, fun h => ⟨h, fun _ _ => rfl, fun _ _ => rfl⟩⟩
+  ⟨fun h => h.toWF, fun h => ⟨h, fun _ _ => rfl, fun _ _ => rfl, fun _ _ => rfl⟩⟩
 
 theorem WFDef.reservedOk {R : Reserved σ α} {n : NFA σ α} (wf : WFDef R n) :
-    faValidateReserved R n.states n.syms = .ok () :=
-  (faValidateReserved_eq_ok R n.states n.syms).mpr ⟨wf.noNone, wf.noEmptySym⟩
+    faValidateReserved R n.states (akeys n.trans) n.syms = .ok () :=
+  (faValidateReserved_eq_ok R n.states (akeys n.trans) n.syms).mpr ⟨wf.noNone, wf.noNoneKey, wf.noEmptySym⟩
 
-theorem validateDef_eq_validate (R : Reserved σ α) (n n' : NFA σ α) (wf : WFDef R n)
-    (hs : n'.states = n.states) (hy : n'.syms = n.syms) : validateDef R n' = n'.validate := by
+/-- An edit `n'` of a well-formed definition `n` that leaves the state set and the alphabet alone and
+adds no row key passes the reserved-name check. -/
+theorem validateDef_eq_validate (R : Reserved σ α) {n : NFA σ α} (wf : WFDef R n) (n' : NFA σ α)
+    (hs : n'.states = n.states) (hy : n'.syms = n.syms)
+    (hk : ∀ q ∈ akeys n'.trans, q ∈ akeys n.trans) : validateDef R n' = n'.validate := by
   unfold validateDef
-  rw [hs, hy, (faValidateReserved_eq_ok R n.states n.syms).mpr ⟨wf.noNone, wf.noEmptySym⟩]
+  rw [hs, hy, (faValidateReserved_eq_ok R n.states (akeys n'.trans) n.syms).mpr
+    ⟨wf.noNone, fun q hq => wf.noNoneKey q (hk q hq), wf.noEmptySym⟩]
   rfl
 
 inductive DefRule
@@ -317,7 +343,7 @@ def defRules (R : Reserved σ α) : RuleSys (NFA σ α) DefRule where
   kind := DefRule.kind
   stage := DefRule.stage
   Violates n
-    | .reservedStateName => ∃ q ∈ n.states, R.isNone q = true
+    | .reservedStateName => (∃ q ∈ n.states, R.isNone q = true) ∨ (∃ q ∈ akeys n.trans, R.isNone q = true)
     | .reservedInputSymbol => ∃ a ∈ n.syms, R.isEmptyStr a = true
     | .unknownSymbol => ∃ kv ∈ n.trans, ∃ a, some a ∈ akeys kv.2 ∧ a ∉ n.syms
     | .unknownEndState => ∃ kv ∈ n.trans, ∃ ts ∈ avals kv.2, ∃ q ∈ ts, q ∉ n.states
@@ -329,7 +355,7 @@ theorem defRules_stage (R : Reserved σ α) : (defRules R).stage = DefRule.stage
 theorem defRules_kind (R : Reserved σ α) : (defRules R).kind = DefRule.kind := rfl
 
 theorem defRules_correct (R : Reserved σ α) : (defRules R).Correct (validateDef R) := by
-  refine RuleSys.Correct.seq (faReservedRules_correct R (fun n : NFA σ α => n.states) (fun n => n.syms))
+  refine RuleSys.Correct.seq (faReservedRules_correct R (fun n : NFA σ α => n.states) (fun n => akeys n.trans) (fun n => n.syms))
     rules_correct DefRule.ofReserved DefRule.ofCore 2 ?_ ?_ ?_ ?_ ?_ ?_ ?_ ?_
   · intro r
     cases r
